@@ -28,7 +28,7 @@ MUTATORS = ['add_gate', 'emplace_gate', 'add_inputs', 'remove_gate', 'rename_gat
             'connect_right', 'connect_inputs', 'extend_circuit', 'add_circuit', 'replace_subcircuit', 'make_block',
             'make_block_from_slice', 'delete_block', 'remove_block', 'into_bench']
 REQUIRED = {('mon:%s.ok' % m): 5 for m in MUTATORS}
-REQUIRED.update({'mon:__copy__.ok': 20, 'mon:from_bench_string.ok': 5, 'mon:into_circuit.ok': 3,
+REQUIRED.update({'cross:c10': 5, 'cross:c19': 5, 'cross:c07': 5, 'cross:c03': 5, 'mon:__copy__.ok': 20, 'mon:from_bench_string.ok': 5, 'mon:into_circuit.ok': 3,
                  'right_connect_internal_connector': 5})
 
 CUR = {'ctx': None, 'case': None, 'hist': None}
@@ -37,8 +37,11 @@ CUR = {'ctx': None, 'case': None, 'hist': None}
 def shards(tier, seed):
     per = 400 if tier == "quick" else 4000
     budget = 45 if tier == 'quick' else 540
-    return [{'kind': 'random', 'count': per, 'budget_s': budget, 'max_len': 12 if tier == 'quick' else 40}
-            for _ in range(16)]
+    out = [{'kind': 'random', 'count': per, 'budget_s': budget, 'max_len': 12 if tier == 'quick' else 40}
+           for _ in range(14)]
+    out.append({'kind': 'cross', 'count': 25 if tier == 'quick' else 600, 'budget_s': budget, 'modules': CROSS[:5]})
+    out.append({'kind': 'cross', 'count': 25 if tier == 'quick' else 600, 'budget_s': budget, 'modules': CROSS[5:]})
+    return out
 
 
 # ------------------------------------------------------------------ monitors
@@ -459,8 +462,54 @@ def gen_case(rng, spec):
             'start_block': rng.random() < 0.3}
 
 
+CROSS = ['c10', 'c14', 'c19', 'c07', 'c09', 'c13', 'c03', 'c11', 'c16']
+
+
+def run_cross(spec, ctx):
+    """Drive the workloads of other properties (their own monitors NOT installed) under the C02
+    invariant monitors: gadgets, composition chains, rewrites, passes, parser, codec."""
+    import importlib
+    from vt.ctx import Ctx
+    names = spec.get('modules') or CROSS
+    per = spec['count']
+    for name in names:
+        mod = importlib.import_module('vt.props.' + name)
+        side = Ctx(name.upper(), {'seed': ctx.seed, 'shard': ctx.shard, 'budget_s': ctx.budget})
+        # the other module's bookkeeping goes to `side`; only C02's monitors report into ctx
+        for holder in (getattr(mod, 'CUR', None), getattr(getattr(mod, 'A', None), 'CUR', None),
+                       getattr(getattr(mod, '_simp', None), 'CUR', None)):
+            if isinstance(holder, dict):
+                holder['ctx'] = side
+        rng = random.Random('cross:%s:%s:%s' % (ctx.seed, ctx.shard, name))
+        for i in range(per):
+            if ctx.out_of_time():
+                ctx.count('stopped_on_budget')
+                return
+            try:
+                if name in ('c07', 'c09'):
+                    case = mod.gen_case(rng, {'max_n': 10}) if name == 'c07' else mod.gen_add_case(rng, 5)
+                    if case.get('func', '').startswith('generate_'):
+                        continue
+                    CUR['case'] = {'kind': 'cross', 'module': name, 'case': case}
+                    CUR['hist'] = [name]
+                    (mod.check_case if name == 'c07' else mod.run_call)(case, side)
+                else:
+                    case = mod.gen_case(rng, {'max_g': 10, 'max_in': 5, 'max_len': 8})
+                    CUR['case'] = {'kind': 'cross', 'module': name, 'case': case}
+                    CUR['hist'] = [name]
+                    mod.check_case(case, side)
+                ctx.count('cross:' + name)
+                ctx.case('cross:%s:%s' % (name, i), True, cls='cross')
+            except Exception as e:
+                ctx.count('cross_driver_error:%s:%s' % (name, type(e).__name__))
+    CUR['hist'] = None
+
+
 def run_shard(spec, ctx):
     install(ctx)
+    if spec.get('kind') == 'cross':
+        run_cross(spec, ctx)
+        return
     for i in range(spec['count']):
         if ctx.out_of_time():
             ctx.count('stopped_on_budget')
